@@ -19,7 +19,7 @@ RULE = (
     "keyword-only, **kwargs; positional-only see assumptions), defaults, names drawn from ordinary identifiers and from "
     "names that coincide with eliot's own keyword parameters / message keys (logger, action_type, _serializers, fields, "
     "args, kwargs, result, wrapped_function, include_args, include_result, task_uuid, timestamp, reason, exception, n); "
-    "plain functions and methods; bodies that return a shared sentinel, a fresh value built from their locals, or raise a "
+    "plain functions and methods, also ones already wrapped by another functools.wraps pass-through decorator; bodies that return a shared sentinel, a fresh value built from their locals, or raise a "
     "given exception object; decorator forms @log_call and @log_call(...) with generated action_type, include_args (any "
     "subset incl. empty; invalid names must raise ValueError at decoration), include_result; 1-4 calls per function with "
     "argument lists built both by valid binding and at random (often unbindable). Oracle: differential against the "
@@ -144,9 +144,27 @@ def check(case):
 
         raise HarnessError("generated source does not compile: %s\n%s" % (e, src))
     plain = glob["C"].__dict__["target"] if method else glob["target"]
+    if case.get("inner_decorator"):
+        import functools
+
+        inner = plain
+
+        @functools.wraps(inner)
+        def passthrough(*args, **kwargs):
+            return inner(*args, **kwargs)
+
+        plain = passthrough
     names = [p[0] for p in params]
+    if case.get("inner_decorator"):
+        # what Python binds for the function log_call actually decorates: (*args, **kwargs)
+        names = ["args", "kwargs"]
     deco = case["deco"]
     include_args = deco.get("include_args")
+    if case.get("inner_decorator"):
+        # which names include_args may use for a function hidden behind another decorator is not
+        # specified (eliot validates against the inner signature but binds the outer one): not exercised
+        include_args = None
+        deco = dict(deco, include_args=None)
     if include_args is not None:
         include_args = [names[i % len(names)] if isinstance(i, int) and names else i for i in include_args]
         include_args = [i for i in include_args if not isinstance(i, int)]
@@ -182,7 +200,7 @@ def check(case):
         cls = glob["C"]
         inst = cls()
 
-    sig = inspect.signature(plain)
+    sig = inspect.signature(plain, follow_wrapped=False)
     expected_type = deco.get("action_type")
     if expected_type is None:
         expected_type = "genmod18.C.target" if method else "genmod18.target"
@@ -233,6 +251,9 @@ def check(case):
             bound.apply_defaults()
             expected = dict(bound.arguments)
             expected.pop("self", None)
+            if case.get("inner_decorator"):
+                # only presence is compared for these (the tuple holds the instance for methods)
+                expected = dict((k, v) for k, v in expected.items())
             if include_args is not None:
                 expected = dict((k, v) for k, v in expected.items() if k in include_args)
             if ref_exc is not None:
@@ -284,6 +305,8 @@ def _show(m):
 
 def classify(case, info):
     labels = ["method" if case["method"] else "function", "body:" + case["body"], "form:" + case["deco"]["form"]]
+    if case.get("inner_decorator"):
+        labels.append("under-another-functools.wraps-decorator")
     if info.get("invalid_include_args"):
         return True, labels + ["invalid-include_args"]
     labels.append("kinds=%d" % info["kinds"])
@@ -323,7 +346,8 @@ def strategy():
         st.dictionaries(st.sampled_from(NAMES + ["zz"]), values(), max_size=3),
     )
     return st.builds(
-        lambda method, body, deco, params, calls: {"method": method, "body": body, "deco": deco, "params": params, "calls": calls},
+        lambda inner, method, body, deco, params, calls: {"inner_decorator": inner, "method": method, "body": body, "deco": deco, "params": params, "calls": calls},
+        st.sampled_from([False, False, False, True]),
         st.booleans(),
         st.sampled_from(["sentinel", "locals", "locals", "raise"]),
         deco,
